@@ -19,6 +19,8 @@ if PY2:
 else:
     HEX_TO_BYTE = {(a + b).encode(): bytes.fromhex(a + b) for a in HEX for b in HEX}
 
+HEX_BYTES = HEX.encode()
+
 ASCII_RE = re.compile("([\x00-\x7f]+)")
 
 
@@ -48,6 +50,13 @@ def _unquote_impl(string, only_printable=False, unsafe=None):
                 append(b"%")
                 append(item)
             elif unsafe is not None and b in unsafe:
+                append(b"%")
+                append(item)
+            # NOTE: an unquoted hex digit must not complete a dangling "%" or
+            # "%X" already written, else we would forge a new escape
+            elif b in HEX_BYTES and (
+                res[-1:] == b"%" or (res[-2:-1] == b"%" and res[-1:] in HEX_BYTES)
+            ):
                 append(b"%")
                 append(item)
             else:
